@@ -146,7 +146,8 @@ func (c *Conn) loop(ctx context.Context) {
 				if err != nil {
 					log.Println(err)
 				}
-				ok := n >= 0
+				// a request the hub refused (closed swarm, ...) is answered "not ok", never with an empty success
+				ok := err == nil && n >= 0
 				if n < 0 {
 					n = 0
 				}
